@@ -1033,3 +1033,9 @@ mod tests {
         assert_eq!(0, matches.len());
     }
 }
+
+#[cfg(kani)]
+mod verif_kani {
+    use super::*;
+    include!(concat!(env!("RG_VERIF_KANI_DIR"), "/globset/lib.rs"));
+}
